@@ -159,6 +159,7 @@ WITNESSES = {
     "witness:helper-returning-lists": "def pick(k):\n    if k == 0:\n        return [1, 2, 3]\n    return [0.5, 1.5]\nv = pick(2)\nmon.write(len(v))\n",
     "witness:for-over-list": "xs = [1, 2]\nfor e in xs:\n    mon.write(e)\n",
     "witness:literal-plus-literal": "s = \"a\" + \"b\"\nmon.write(s)\n",
+    "witness:str-argument-inside-call-argument": "def count(msg):\n    return len(msg)\nmon.write(count(\"xy\"))\n",
     "witness:loop-variable-after-loop": "for i in range(3):\n    sleep(1)\nmon.write(i)\n",
 }
 
